@@ -30,6 +30,10 @@ def build(a, rnd):
         m["cons"].append({"lb": None, "ub": 4, "lin": [], "expr": O(15, O(1, V(0), V(1)))})
     if "logic" in a["extra"]:
         m["lcons"].append(O(20, O(28, V(0), N(1)), O(28, V(2), N(1))))
+    if "ite" in a["extra"]:
+        m["cons"].append({"lb": None, "ub": 4, "lin": [], "expr": O(35, O(28, V(0), N(1)), V(1), V(2))})
+    if "max" in a["extra"]:
+        m["cons"].append({"lb": 1, "ub": None, "lin": [], "expr": O(12, V(0), V(1), O(16, V(2)))})
     if "sos" in a["extra"]:
         sosno = -2 if "sos2" in a["extra"] else 1
         m["suffixes"] = m.get("suffixes", []) + [{"kind": 0, "name": "sosno", "vals": {0: sosno, 1: sosno, 2: sosno}},
